@@ -7,7 +7,7 @@ ASSUMPTIONS = [
     'parse level: 33 core programs + 10 carrier statements covering the remaining keywords x {UPPER, Capitalised, aLtErNaTiNg}; trees compared strictly with cardinality / operator / boolean literal lower-cased; text realised, parsed outside the tracer',
     'execution: every core program is parsed from its UPPER-case (and, for programs with keyword-carrying AST fields, alternating-case) text and executed traced with symbolic data; result and final population must equal the reference evaluator = the lower-case semantics',
     'symbolic spellings: the first three keyword-carrying AST fields (select cardinality, and/or/not/empty/not_empty/cardinality operators, boolean literals) are SYMBOLIC strings constrained only to the keyword letters in either case (all 2^len spellings in one condition)',
-    'prebuild level is covered by C05/C06 harness variants, not here',
+    'prebuild level: every program of the C05 corpus in every action home is prebuilt from its lower-case and its UPPER / alternating-case text; all attribute values of the created instances (ids excepted) must agree',
 ]
 NFIELDS = {'bool_ops': 3, 'bool_ne_ge': 3, 'select_many_where': 2, 'where_and': 3, 'nav_where_sum': 3, 'nav_from_set': 3,
            'empty_card': 3, 'relate_unrelate': 3, 'foreach_write': 2, 'select_any_where': 2, 'create_relate': 3,
@@ -31,6 +31,12 @@ def conditions(tier, seed):
                             symbolic=['a0', 'a1', 'ab0', 'ab1', 'v0', 'v1', 'p1', 'p2', 'pb', 'pn'], case_split=['ls'],
                             realised=['program text'], twin=(st == 'upper')))
     import importlib, os, sys
+    for st in (['upper', 'mixed'] if tier == 'quick' else ['upper', 'mixed', 'cap']):
+        for sh in range(4):
+            out.append(Cond('prebuild_%s_s%d' % (st, sh), 'c05_rt.py', dict(which='c08', corpus='core', style=st, shard=sh, nshards=4),
+                            func='check_case_prebuild', timeout=900,
+                            bound='C05 corpus x action homes: instances prebuilt from the %s-case body equal those of the lower-case body (all attributes except ids)' % st,
+                            case_split=['ci'], realised=['program text'], twin=(sh == 0)))
     import oalgen
     for n in KWPROGS:
         for fi in range(NFIELDS.get(n, 1)):
